@@ -245,4 +245,127 @@ Proof.
   - apply (DQ _ fasset_eqb fasset_eqb_spec). intros x Hx. apply M2. apply in_or_app. right. exact Hx.
   - apply (DQ _ fassoc_eqb fassoc_eqb_spec). intros x Hx. apply M3. apply in_or_app. right. exact Hx.
 Qed.
+
+(* ---------- any tree of included files: compiling it is compiling its flattening ---------- *)
+(* the declarations of a file with every include replaced, recursively, by the declarations of the included file *)
+Fixpoint flat_list (fl : cmal -> option cmal) (m : cmal) : option cmal :=
+  match m with
+  | [] => Some []
+  | DInclude g :: r =>
+      match files g with
+      | Some m' => match fl m', flat_list fl r with Some a, Some b => Some (a ++ b) | _, _ => None end
+      | None => None
+      end
+  | d :: r => option_map (cons d) (flat_list fl r)
+  end.
+Fixpoint flat (fuel : nat) (m : cmal) : option cmal :=
+  match fuel with O => None | Datatypes.S f => flat_list (flat f) m end.
+
+Lemma rel_refl s : rel s s.
+Proof. repeat split; apply deq_refl. Qed.
+Lemma rel_trans a b c : rel a b -> rel b c -> rel a c.
+Proof.
+  intros (E1 & C1 & A1 & S1) (E2 & C2 & A2 & S2). repeat split; [congruence|..]; intros Y; [rewrite C1|rewrite A1|rewrite S1]; auto.
+Qed.
+Lemma raw_step_rel s1 s2 d : rel s1 s2 -> rel (raw_step s1 d) (raw_step s2 d).
+Proof.
+  intros (E & C & A & S). destruct d as [file|k v|c|l]; cbn [raw_step]; repeat split; cbn [sp_defines sp_categories sp_assets sp_assocs]; auto;
+    try (rewrite E; reflexivity); apply deq_app; auto.
+Qed.
+Lemma raw_of_rel : forall m s1 s2, rel s1 s2 -> rel (raw_of m s1) (raw_of m s2).
+Proof. induction m as [|d m IH]; intros s1 s2 H; cbn [raw_of fold_left]; auto. apply IH. apply raw_step_rel; auto. Qed.
+Lemma raw_of_app m1 m2 s : raw_of (m1 ++ m2) s = raw_of m2 (raw_of m1 s).
+Proof. unfold raw_of. apply fold_left_app. Qed.
+Lemma define_keys_app m1 m2 : define_keys (m1 ++ m2) = define_keys m1 ++ define_keys m2.
+Proof. unfold define_keys. apply flat_map_app. Qed.
+Lemma raw_of_defines : forall m s, NoDup (map fst (sp_defines s) ++ define_keys m) ->
+  map fst (sp_defines (raw_of m s)) = map fst (sp_defines s) ++ define_keys m.
+Proof.
+  induction m as [|d m IH]; intros s N; cbn [raw_of fold_left define_keys flat_map]; [rewrite app_nil_r; auto|].
+  change (fold_left raw_step m (raw_step s d)) with (raw_of m (raw_step s d)). fold (define_keys m) in *.
+  destruct d as [file|k v|c|l]; cbn [app] in *.
+  - rewrite IH; [reflexivity|exact N].
+  - assert (Nk : ~ In k (map fst (sp_defines s))).
+    { intros A0. apply NoDup_remove_2 in N. apply N. apply in_or_app. left; auto. }
+    rewrite IH.
+    + cbn [raw_step sp_defines]. rewrite (dset_fresh _ _ _ Nk), map_app. cbn [map fst]. rewrite <- app_assoc. reflexivity.
+    + cbn [raw_step sp_defines]. rewrite (dset_fresh _ _ _ Nk), map_app. cbn [map fst]. rewrite <- app_assoc. exact N.
+  - rewrite IH; [reflexivity|exact N].
+  - rewrite IH; [reflexivity|exact N].
+Qed.
+Lemma NoDup_app_l {A} (l1 l2 : list A) : NoDup (l1 ++ l2) -> NoDup l1.
+Proof. induction l1 as [|a r IH]; cbn; intros N; constructor; inversion N; subst; auto. intros A0. apply H1. apply in_or_app; auto. Qed.
+Lemma NoDup_app_r {A} (l1 l2 : list A) : NoDup (l1 ++ l2) -> NoDup l2.
+Proof. induction l1 as [|a r IH]; cbn; auto. intros N. inversion N; auto. Qed.
+
+(* the inner de-duplication of an included file's result is invisible *)
+Lemma merge_dedupe_rel s X : rel (merge s (spec_dedupe X)) (merge s X).
+Proof.
+  unfold merge, rel, spec_dedupe. cbn [sp_defines sp_categories sp_assets sp_assocs]. split; [reflexivity|].
+  repeat split; intros Y; rewrite <- !app_assoc.
+  - apply (dedupe_absorbs_inner fcat_eqb fcat_eqb_spec).
+  - apply (dedupe_absorbs_inner fasset_eqb fasset_eqb_spec).
+  - apply (dedupe_absorbs_inner fassoc_eqb fassoc_eqb_spec).
+Qed.
+
+Lemma flat_fold f :
+  (forall m fm, flat f m = Some fm -> NoDup (define_keys fm) -> v_mal files f m = Some (spec_dedupe (raw_of fm spec_empty))) ->
+  forall m fm s, flat_list (flat f) m = Some fm -> NoDup (map fst (sp_defines s) ++ define_keys fm) ->
+    exists s', fold_left (mstep_ files f) m (Some s) = Some s' /\ rel s' (raw_of fm s).
+Proof.
+  intros IHf. induction m as [|d r IH]; intros fm s Hf N; cbn [flat_list] in Hf.
+  - inversion Hf; subst. exists s. split; [reflexivity|apply rel_refl].
+  - destruct d as [g|k v|c|l].
+    + (* include *)
+      destruct (files g) as [m'|] eqn:Eg; [|discriminate].
+      destruct (flat f m') as [a|] eqn:Ea; [|discriminate]. destruct (flat_list (flat f) r) as [b|] eqn:Eb; [|discriminate].
+      inversion Hf; subst fm. clear Hf. rewrite define_keys_app in N.
+      assert (Na : NoDup (define_keys a)) by (apply NoDup_app_r in N; apply NoDup_app_l in N; auto).
+      pose proof (IHf m' a Ea Na) as Ev.
+      cbn [fold_left mstep_]. rewrite Eg, Ev.
+      set (X := raw_of a spec_empty).
+      change (Some (mkFSpec (dict_update (sp_defines s) (sp_defines (spec_dedupe X))) (sp_categories s ++ sp_categories (spec_dedupe X))
+                            (sp_assets s ++ sp_assets (spec_dedupe X)) (sp_assocs s ++ sp_assocs (spec_dedupe X))))
+        with (Some (merge s (spec_dedupe X))).
+      assert (E2 : raw_of a s = merge s X).
+      { unfold X. rewrite <- (merge_empty s) at 1. apply raw_merge. cbn. exact Na. }
+      assert (R1 : rel (merge s (spec_dedupe X)) (raw_of a s)) by (rewrite E2; apply merge_dedupe_rel).
+      destruct (IH b (raw_of a s) eq_refl) as (s2 & F2 & R2).
+      { rewrite raw_of_defines by (rewrite app_assoc in N; apply NoDup_app_l in N; auto). rewrite <- app_assoc. exact N. }
+      pose proof (rel_fold f r (Some (merge s (spec_dedupe X))) (Some (raw_of a s)) R1) as RF. rewrite F2 in RF.
+      destruct (fold_left (mstep_ files f) r (Some (merge s (spec_dedupe X)))) as [s1|]; [|destruct RF].
+      exists s1. split; auto. rewrite raw_of_app. eapply rel_trans; eauto.
+    + (* define *)
+      destruct (flat_list (flat f) r) as [b|] eqn:Eb; [|discriminate]. inversion Hf; subst fm. clear Hf.
+      cbn [fold_left mstep_]. cbn [define_keys flat_map app] in N. fold (define_keys b) in N.
+      assert (Nk : ~ In k (map fst (sp_defines s))).
+      { intros A0. apply NoDup_remove_2 in N. apply N. apply in_or_app. left; auto. }
+      destruct (IH b (raw_step s (DDefine k v)) eq_refl) as (s2 & F2 & R2).
+      { cbn [raw_step sp_defines]. rewrite (dset_fresh _ _ _ Nk), map_app. cbn [map fst]. rewrite <- app_assoc. exact N. }
+      exists s2. split; auto.
+    + (* category *)
+      destruct (flat_list (flat f) r) as [b|] eqn:Eb; [|discriminate]. inversion Hf; subst fm. clear Hf.
+      cbn [fold_left mstep_]. destruct (IH b (raw_step s (DCategory c)) eq_refl) as (s2 & F2 & R2); [exact N|]. exists s2. split; auto.
+    + (* associations *)
+      destruct (flat_list (flat f) r) as [b|] eqn:Eb; [|discriminate]. inversion Hf; subst fm. clear Hf.
+      cbn [fold_left mstep_]. destruct (IH b (raw_step s (DAssociations l)) eq_refl) as (s2 & F2 & R2); [exact N|]. exists s2. split; auto.
+Qed.
+
+(* compiling a root file with any tree of includes below it = evaluating the flattened declaration list *)
+Theorem flat_compile : forall f m fm, flat f m = Some fm -> NoDup (define_keys fm) ->
+  v_mal files f m = Some (spec_dedupe (raw_of fm spec_empty)).
+Proof.
+  induction f as [|f IHf]; intros m fm Hf N; [discriminate|].
+  rewrite v_mal_unfold. cbn [flat] in Hf.
+  destruct (flat_fold f IHf m fm spec_empty Hf) as (s' & F & R); [cbn; exact N|].
+  rewrite F. apply (rel_final (Some s') (Some (raw_of fm spec_empty))). exact R.
+Qed.
+
 End Layout.
+
+(* two layouts of one language — whatever the split into files and the nesting of the includes — that flatten to the same
+   declaration list compile to the same specification *)
+Theorem layout_independent files1 files2 f1 f2 m1 m2 fm :
+  flat files1 f1 m1 = Some fm -> flat files2 f2 m2 = Some fm -> NoDup (define_keys fm) ->
+  v_mal files1 f1 m1 = v_mal files2 f2 m2.
+Proof. intros H1 H2 N. rewrite (flat_compile files1 f1 m1 fm H1 N), (flat_compile files2 f2 m2 fm H2 N). reflexivity. Qed.
